@@ -300,9 +300,10 @@ def _collect_helpers(pkg: _Package, counter: list[int]) -> None:
         if fn.name.startswith("__") or deco - {"staticmethod", "classmethod", "property", "final"}:
             return
         a = fn.args
-        if a.vararg or a.kwarg or a.kwonlyargs or a.posonlyargs or a.defaults:
+        if a.vararg or a.kwarg or a.posonlyargs or a.defaults or any(d is not None for d in a.kw_defaults):
             return
         names = [x.arg for x in a.args]
+        kwonly_names = [x.arg for x in a.kwonlyargs]  # keyword-only parameters without defaults bind like any other
         kind, recv = "function", None
         if owner is not None:
             if "staticmethod" in deco:
@@ -312,6 +313,7 @@ def _collect_helpers(pkg: _Package, counter: list[int]) -> None:
                     return
                 kind = "classmethod" if "classmethod" in deco else "property" if "property" in deco else "method"
                 recv, names = names[0], names[1:]
+        names = names + kwonly_names
         body = _body(fn)
         if any(isinstance(n, (ast.Yield, ast.YieldFrom, ast.Await, ast.Global, ast.Nonlocal, ast.FunctionDef, ast.ClassDef)) for s in body for n in ast.walk(s)):
             return
@@ -883,7 +885,26 @@ class _IsinstanceToMatch(ast.NodeTransformer):
                 cur = None
         return subject, arms, orelse
 
+    def _positive(self, stmts: list[ast.stmt]) -> list[ast.stmt]:
+        """``if not isinstance(s, K): <closed>`` followed by more statements  ->  ``if isinstance(s, K): <rest> else: <closed>``."""
+        for i, s in enumerate(stmts):
+            if (
+                isinstance(s, ast.If)
+                and not s.orelse
+                and isinstance(s.test, ast.UnaryOp)
+                and isinstance(s.test.op, ast.Not)
+                and i + 1 < len(stmts)
+                and _ends_closed(s.body)
+                and self._arm(s.test.operand, s.body, None) is not None
+                and not self._arm(s.test.operand, s.body, None)[1].guard  # type: ignore[index]
+            ):
+                rest = self._positive(stmts[i + 1 :])
+                new = ast.copy_location(ast.If(test=s.test.operand, body=rest, orelse=s.body), s)
+                return stmts[:i] + [new]
+        return stmts
+
     def _block(self, stmts: list[ast.stmt]) -> list[ast.stmt]:
+        stmts = self._positive(stmts)
         out: list[ast.stmt] = []
         i = 0
         while i < len(stmts):
@@ -1479,6 +1500,16 @@ class _InlineNewTemps:
             elif isinstance(n, (ast.MatchAs, ast.MatchStar)) and n.name:
                 stores[n.name] = stores.get(n.name, 0) + 1
         self.cands = {nm for nm, c in stores.items() if c == 1 and loads.get(nm, 0) == 1 and nm not in self.keep}
+        # a new temp bound in several places (one per arm) is inlined when *every* binding is used once by the very
+        # next statement: then no read can see another binding's value
+        multi = {nm for nm, c in stores.items() if c > 1 and loads.get(nm, 0) == c and nm not in self.keep}
+        if multi:
+            self.pairs: dict[str, int] = {}
+            self._count_only = True
+            self.cands_all = multi
+            self._walk(fn)
+            self._count_only = False
+            self.cands |= {nm for nm in multi if self.pairs.get(nm, 0) == stores[nm]}
         if self.cands:
             self._walk(fn)
 
@@ -1492,6 +1523,12 @@ class _InlineNewTemps:
                 nm = s.targets[0].id
             elif isinstance(s, ast.AnnAssign) and isinstance(s.target, ast.Name) and s.value is not None:
                 nm = s.target.id
+            if getattr(self, "_count_only", False):
+                if nm in self.cands_all and i + 1 < len(stmts) and not any(isinstance(n, (ast.Lambda, ast.ListComp, ast.SetComp, ast.DictComp, ast.GeneratorExp)) for n in ast.walk(stmts[i + 1])) and _first_use_is_safe(stmts[i + 1], nm):
+                    self.pairs[nm] = self.pairs.get(nm, 0) + 1
+                out.append(s)
+                i += 1
+                continue
             if nm in self.cands and i + 1 < len(stmts) and not any(isinstance(n, (ast.Lambda, ast.ListComp, ast.SetComp, ast.DictComp, ast.GeneratorExp)) for n in ast.walk(stmts[i + 1])) and _first_use_is_safe(stmts[i + 1], nm):
                 nxt = stmts[i + 1]
                 stmts[i + 1] = _Subst({nm: s.value}).visit(nxt)
@@ -1757,3 +1794,238 @@ def propagate_new_aliases(rel: str, tree: ast.Module) -> int:
     if total:
         ast.fix_missing_locations(tree)
     return total
+
+
+# ------------------------------------------------------------------------------------------------------------------
+# N13: ``match <vararg>:`` with sequence patterns  ->  length tests
+#
+# For a ``*args`` parameter (always a tuple) ``case ():`` is ``not args``, ``case (x,):`` is ``len(args) == 1`` with
+# ``x = args[0]``, ``case (x, y):`` is ``len(args) == 2`` ..., and ``case _:`` is the remainder.  The package writes the
+# length tests; the rules read guards as facts about ``len``/truthiness, so the pattern spelling is put back.
+
+
+class _SequenceMatchToIf(ast.NodeTransformer):
+    def __init__(self) -> None:
+        self.changed = 0
+        self._varargs: list[str | None] = []
+
+    def visit_FunctionDef(self, node: ast.FunctionDef):
+        self._varargs.append(node.args.vararg.arg if node.args.vararg is not None else None)
+        rebound = {t.id for s in ast.walk(node) for t in (s.targets if isinstance(s, ast.Assign) else []) if isinstance(t, ast.Name)}
+        if self._varargs[-1] in rebound:
+            self._varargs[-1] = None
+        self.generic_visit(node)
+        self._varargs.pop()
+        return node
+
+    def _convert(self, node: ast.Match) -> ast.stmt | None:
+        va = self._varargs[-1] if self._varargs else None
+        if va is None or not (isinstance(node.subject, ast.Name) and node.subject.id == va):
+            return None
+        arms: list[tuple[ast.expr | None, list[ast.stmt]]] = []
+        for c in node.cases:
+            if c.guard is not None:
+                return None
+            p = c.pattern
+            if isinstance(p, ast.MatchAs) and p.pattern is None and p.name is None:
+                arms.append((None, c.body))
+                continue
+            if not isinstance(p, ast.MatchSequence):
+                return None
+            binds: list[ast.stmt] = []
+            for i, q in enumerate(p.patterns):
+                if isinstance(q, ast.MatchAs) and q.pattern is None:
+                    if q.name is not None:
+                        binds.append(ast.Assign(targets=[ast.Name(q.name, ast.Store())], value=ast.Subscript(value=ast.Name(va, ast.Load()), slice=ast.Constant(i), ctx=ast.Load()), lineno=c.body[0].lineno))
+                else:
+                    return None
+            n = len(p.patterns)
+            if n == 0:
+                test: ast.expr = ast.UnaryOp(op=ast.Not(), operand=ast.Name(va, ast.Load()))
+            else:
+                test = ast.Compare(left=ast.Call(func=ast.Name("len", ast.Load()), args=[ast.Name(va, ast.Load())], keywords=[]), ops=[ast.Eq()], comparators=[ast.Constant(n)])
+            arms.append((test, binds + c.body))
+        if not arms or arms[0][0] is None:
+            return None
+        # a wildcard arm must be the last one
+        if any(t is None for t, _ in arms[:-1]):
+            return None
+        tail: list[ast.stmt] = []
+        if arms[-1][0] is None:
+            tail = arms[-1][1]
+            arms = arms[:-1]
+        cur: list[ast.stmt] = tail
+        for test, body in reversed(arms):
+            cur = [ast.copy_location(ast.If(test=test, body=body, orelse=cur), node)]
+        return cur[0]
+
+    def generic_visit(self, node):
+        super().generic_visit(node)
+        for field in ("body", "orelse", "finalbody"):
+            v = getattr(node, field, None)
+            if isinstance(v, list) and v and isinstance(v[0], ast.stmt):
+                out = []
+                for s in v:
+                    r = self._convert(s) if isinstance(s, ast.Match) else None
+                    if r is not None:
+                        self.changed += 1
+                        out.append(r)
+                    else:
+                        out.append(s)
+                setattr(node, field, out)
+        return node
+
+
+def sequence_match_to_if(tree: ast.Module) -> int:
+    t = _SequenceMatchToIf()
+    t.visit(tree)
+    if t.changed:
+        ast.fix_missing_locations(tree)
+    return t.changed
+
+
+# ------------------------------------------------------------------------------------------------------------------
+# N14: ``for x in it: acc.append(e)``  ->  ``acc.extend(e for x in it)``   (acc an existing list; no else, no other
+# statement in the loop; e and it do not mention acc).  Both append the same values in the same order.
+
+
+class _AppendLoopsToExtend(ast.NodeTransformer):
+    def __init__(self) -> None:
+        self.changed = 0
+
+    def _try(self, loop: ast.stmt) -> ast.stmt | None:
+        if not isinstance(loop, ast.For) or loop.orelse or len(loop.body) != 1:
+            return None
+        body = loop.body[0]
+        conds: list[ast.expr] = []
+        if isinstance(body, ast.If) and not body.orelse and len(body.body) == 1:
+            conds.append(body.test)
+            body = body.body[0]
+        if not (isinstance(body, ast.Expr) and isinstance(body.value, ast.Call) and isinstance(body.value.func, ast.Attribute) and body.value.func.attr == "append" and isinstance(body.value.func.value, ast.Name) and len(body.value.args) == 1 and not body.value.keywords):
+            return None
+        acc = body.value.func.value.id
+        for e in [body.value.args[0], loop.iter, loop.target] + conds:
+            if any(isinstance(n, ast.Name) and n.id == acc for n in ast.walk(e)):
+                return None
+        gen = ast.GeneratorExp(elt=body.value.args[0], generators=[ast.comprehension(target=loop.target, iter=loop.iter, ifs=conds, is_async=0)])
+        call = ast.Call(func=ast.Attribute(value=ast.Name(acc, ast.Load()), attr="extend", ctx=ast.Load()), args=[gen], keywords=[])
+        return ast.copy_location(ast.Expr(value=call), loop)
+
+    def generic_visit(self, node):
+        super().generic_visit(node)
+        for field in ("body", "orelse", "finalbody"):
+            v = getattr(node, field, None)
+            if isinstance(v, list) and v and isinstance(v[0], ast.stmt):
+                out = []
+                for s in v:
+                    r = self._try(s)
+                    if r is not None:
+                        self.changed += 1
+                        out.append(r)
+                    else:
+                        out.append(s)
+                setattr(node, field, out)
+        if isinstance(node, ast.Match):
+            for c in node.cases:
+                out = []
+                for s in c.body:
+                    r = self._try(s)
+                    if r is not None:
+                        self.changed += 1
+                        out.append(r)
+                    else:
+                        out.append(s)
+                c.body = out
+        return node
+
+
+def append_loops_to_extend(tree: ast.Module) -> int:
+    t = _AppendLoopsToExtend()
+    t.visit(tree)
+    if t.changed:
+        ast.fix_missing_locations(tree)
+    return t.changed
+
+
+# ------------------------------------------------------------------------------------------------------------------
+# N15: consecutive arms ``case K(operation=A(...), <captures>): X`` / ``case K(operation=B(...), <captures>): Y`` of
+# one node class K  ->  ``case K(operation=operation, <captures>): match operation: case A(...): X  case B(...): Y``.
+# A K node whose operation is none of A, B falls out of the outer match either way, provided no later arm can accept a
+# K node: K is one of the two operation-node classes and every later arm tests a different, unrelated class.
+
+_NODE_CLASSES = {"UnaryOperationRelation", "BinaryOperationRelation"}
+_UNRELATED = {"UnaryOperationRelation", "BinaryOperationRelation", "LeafRelation", "MarkerRelation", "Select", "Transfer", "Materialization"}
+
+
+def _top_class(p: ast.pattern) -> str | None:
+    if isinstance(p, ast.MatchClass) and not p.patterns:
+        return _last_name(p.cls)
+    return None
+
+
+class _NestOperationPatterns(ast.NodeTransformer):
+    def __init__(self) -> None:
+        self.changed = 0
+
+    def visit_FunctionDef(self, node: ast.FunctionDef):
+        self._names = {n.id for n in ast.walk(node) if isinstance(n, ast.Name)} | {a.arg for a in node.args.args}
+        self.generic_visit(node)
+        return node
+
+    def visit_Match(self, node: ast.Match):
+        self.generic_visit(node)
+        cases = node.cases
+        i = 0
+        out: list[ast.match_case] = []
+        while i < len(cases):
+            c = cases[i]
+            k = _top_class(c.pattern)
+            if k in _NODE_CLASSES and c.guard is None and "operation" in c.pattern.kwd_attrs:  # type: ignore[union-attr]
+                group = [c]
+                j = i + 1
+                while j < len(cases) and _top_class(cases[j].pattern) == k and cases[j].guard is None and "operation" in cases[j].pattern.kwd_attrs:  # type: ignore[union-attr]
+                    group.append(cases[j])
+                    j += 1
+                later_ok = all(_top_class(x.pattern) in _UNRELATED - {k} for x in cases[j:])
+
+                def split(case: ast.match_case):
+                    p = case.pattern
+                    assert isinstance(p, ast.MatchClass)
+                    idx = p.kwd_attrs.index("operation")
+                    sub = p.kwd_patterns[idx]
+                    rest = [(a, q) for n, (a, q) in enumerate(zip(p.kwd_attrs, p.kwd_patterns)) if n != idx]
+                    return sub, rest
+
+                parts = [split(g) for g in group]
+                same_rest = all(
+                    [(a, ast.dump(q)) for a, q in r] == [(a, ast.dump(q)) for a, q in parts[0][1]] and all(isinstance(q, ast.MatchAs) and q.pattern is None for _, q in r)
+                    for _, r in parts
+                )
+                subs_are_classes = all(isinstance(s, ast.MatchClass) for s, _ in parts)
+                name = "operation" if "operation" not in getattr(self, "_names", set()) else "operation__n"
+                if len(group) >= 2 and later_ok and same_rest and subs_are_classes:
+                    inner = ast.Match(subject=ast.Name(name, ast.Load()), cases=[ast.match_case(pattern=s, guard=None, body=g.body) for (s, _), g in zip(parts, group)])
+                    ast.copy_location(inner, group[0].body[0])
+                    rest = parts[0][1]
+                    pat = ast.MatchClass(
+                        cls=c.pattern.cls,  # type: ignore[union-attr]
+                        patterns=[],
+                        kwd_attrs=["operation"] + [a for a, _ in rest],
+                        kwd_patterns=[ast.MatchAs(pattern=None, name=name)] + [q for _, q in rest],
+                    )
+                    out.append(ast.match_case(pattern=pat, guard=None, body=[inner]))
+                    self.changed += 1
+                    i = j
+                    continue
+            out.append(c)
+            i += 1
+        node.cases = out
+        return node
+
+
+def nest_operation_patterns(tree: ast.Module) -> int:
+    t = _NestOperationPatterns()
+    t.visit(tree)
+    if t.changed:
+        ast.fix_missing_locations(tree)
+    return t.changed
